@@ -165,6 +165,28 @@ k1 {s} {fl} {flag}
 k2
 -> END
 """,
+    "float-overflow": """VAR f = 1.5
+-> a
+=== a
+start {f}
+~ f = f * 100000000000000000000.0
+~ f = f * 100000000000000000000.0
+big {f}
+* [go] done {f}
+  -> END
+""",
+    "negative-zero": """VAR z = 0.0
+VAR y = 2.5
+-> a
+=== a
+start {z} {y}
+~ z = z * -1.0
+~ y = y * -1.0
+now {z} {y}
+next {1.0 / z}
+* [go] done {z}
+  -> END
+""",
     "tags": """-> t
 === t
 # knot tag
@@ -366,7 +388,13 @@ def grow_histories(ctx, exe, progs, per_prog, max_len):
                 continue
             res_, summ = split_line(lines[-1])
             s = parse_summary(summ)
-            if s is None or res_.startswith("panic") or rnd == max_len:
+            if s is None or res_.startswith("panic"):
+                # a panicking / poisoned original is another property's subject (C04): cut the history before it
+                h["alive"] = False
+                if h["ops"]:
+                    h["ops"].pop()
+                continue
+            if rnd == max_len:
                 h["alive"] = False
                 continue
             cand = []
@@ -402,6 +430,8 @@ def classify(prog, hist, b, before_dump, first):
     dump = before_dump or ""
     cur_flow = re.search(r'"currentFlowName":"([^"]*)"', dump)
     multi = dump.count('"callstack":{"threadCounter"') > 1
+    if first.get("where") == "load-result" and re.search(r":null[,}]", dump):
+        return "non-finite-float-saved-as-null"
     if first.get("where") == "load" and first.get("more_choices"):
         return "invisible-default-choice-not-saved"
     if multi and first.get("where") == "load":
@@ -410,8 +440,10 @@ def classify(prog, hist, b, before_dump, first):
         return "list-origins-not-saved"
     if first.get("where") == "load-result":
         return "load-of-own-save-fails"
-    if re.search(r"\bnull\b", dump):
-        return "non-finite-float-saved-as-null"
+    if re.search(r"f:80000000|-0\b|-inf", json.dumps(first)) and re.search(r"f:00000000|\binf\b|\b0\b", json.dumps(first)):
+        return "negative-zero-global-not-saved"
+    if re.search(r"f:[7f]f7fc99e", dump + json.dumps(first)) or re.search(r"\binf\b", json.dumps(first)):
+        return "non-finite-float-not-representable"
     if multi:
         return "stale-flow-written-over-live-flow"
     return "restored-story-diverges"
@@ -462,6 +494,9 @@ def oracle(ctx, exe, hists, all_boundaries=True):
             bl = rb.get("lines", [])
             if len(bl) != 1 + b + 3 + (n - b) + len(tail):
                 skipped += 1
+                continue
+            if parse_summary(split_line(o_state(b))[1]) is None:
+                skipped += 1        # original already poisoned here
                 continue
             npoints += 1
             dump_b = o_dump(b)
@@ -541,9 +576,13 @@ def run(ctx):
 
     pr = ctx.proof("theories/Props/C02.v")
 
+    import time
+    t0 = time.time()
     progs = programs(ctx)
     hists = grow_histories(ctx, exe, progs, per_prog=2 if ctx.quick() else 4, max_len=12 if ctx.quick() else 18)
+    t1 = time.time()
     fails, ostat = oracle(ctx, exe, hists, all_boundaries=True)
+    t2 = time.time()
 
     mism, cstat, ncorr = [], {}, 0
     try:
@@ -554,6 +593,8 @@ def run(ctx):
     except RuntimeError as e:
         mism.append(dict(status="model-does-not-evaluate", error=str(e)[-600:]))
 
+    ctx.coverage["timing_s"] = dict(histories=round(t1 - t0, 1), oracle=round(t2 - t1, 1),
+                                    correspondence=round(time.time() - t2, 1))
     ops_total = sum(len(h["ops"]) for h in hists)
     ctx.coverage.update(dict(
         evaluations=ostat["save_points"] + ostat["lockstep_comparisons"] + ncorr,
